@@ -106,8 +106,8 @@ Definition days_in (y m : Z) : Z :=
   if m =? 2 then (if is_leap y then 29 else 28)
   else if (m =? 4) || (m =? 6) || (m =? 9) || (m =? 11) then 30 else 31.
 
-(** [ParseTimestamp] on the canonical 20-character form, with the F10 range check *)
-Definition parse_timestamp (s : list Z) : option Z :=
+(** the canonical 20-character form "YYYY-MM-DDTHH:MM:SSZ", with the F10 range check *)
+Definition parse_timestamp_canon (s : list Z) : option Z :=
   match s with
   | [y1;y2;y3;y4; h1; m1;m2; h2; d1;d2; tch; hh1;hh2; k1; mi1;mi2; k2; s1;s2; zz] =>
     if (h1 =? 45) && (h2 =? 45) && (tch =? 84) && (k1 =? 58) && (k2 =? 58) && (zz =? 90) then
@@ -121,4 +121,139 @@ Definition parse_timestamp (s : list Z) : option Z :=
       end
     else None
   | _ => None
+  end.
+
+(** Go's time.Parse is more liberal than the layout suggests in exactly two places: the hour
+    field ("15") takes one or two digits, and a fractional-second field (period or comma and
+    digits) is accepted after the seconds even though the layout has none.  The repaired
+    ParseTimestamp rejects a non-zero fraction; only the first nine digits count.
+    [normalize_ts] rewrites such a string to the canonical form (or rejects it). *)
+Fixpoint take_digits (s : list Z) : list Z * list Z :=
+  match s with
+  | c :: r => if is_digit c then let '(ds, tl) := take_digits r in (c :: ds, tl) else ([], s)
+  | [] => ([], [])
+  end.
+
+Definition normalize_ts (s : list Z) : option (list Z) :=
+  match s with
+  | y1 :: y2 :: y3 :: y4 :: h1 :: m1 :: m2 :: h2 :: d1 :: d2 :: tch :: a :: rest =>
+    let pre := [y1; y2; y3; y4; h1; m1; m2; h2; d1; d2; tch] in
+    let hr := match rest with
+              | b :: _ => if is_digit a && negb (is_digit b) then c0 :: a :: rest else a :: rest
+              | [] => a :: rest
+              end in
+    match hr with
+    | hh1 :: hh2 :: k1 :: mi1 :: mi2 :: k2 :: s1 :: s2 :: tail =>
+      match tail with
+      | c :: d :: r =>
+        if ((c =? 46) || (c =? 44)) && is_digit d then
+          let '(ds, tl) := take_digits (d :: r) in
+          if forallb (fun x => x =? c0) (firstn 9 ds)
+          then Some (pre ++ [hh1; hh2; k1; mi1; mi2; k2; s1; s2] ++ tl)
+          else None
+        else Some (pre ++ hr)
+      | _ => Some (pre ++ hr)
+      end
+    | _ => Some (pre ++ hr)
+    end
+  | _ => Some s
+  end.
+
+(** [ParseTimestamp] *)
+Definition parse_timestamp (s : list Z) : option Z :=
+  match normalize_ts s with
+  | None => None
+  | Some s' => parse_timestamp_canon s'
+  end.
+
+(** ** Archive lists (archive_info.go) *)
+From WT Require Import Base.Bytes Model.Time Model.Ring Model.Codec.
+
+(** split at the first occurrence of [c] *)
+Fixpoint split_first (c : Z) (s : list Z) : option (list Z * list Z) :=
+  match s with
+  | [] => None
+  | x :: r => if x =? c then Some ([], r)
+              else match split_first c r with Some (a, b) => Some (x :: a, b) | None => None end
+  end.
+
+(** [ParseArchiveInfo] -> (secondsPerPoint, numberOfPoints) *)
+Definition parse_archive_info (s : list Z) : option (Z * Z) :=
+  match split_first 58 s with
+  | None => None
+  | Some (a, b) =>
+    match b with
+    | [] => None
+    | _ => match parse_duration a, parse_duration b with
+           | Some step, Some d =>
+             if (step <=? 0) || (d <=? 0) || negb (Z.rem d step =? 0) then None
+             else Some (step, u32 (Z.quot d step))
+           | _, _ => None
+           end
+    end
+  end.
+
+(** fields separated by commas (a trailing comma yields a last empty field, which does not parse) *)
+Fixpoint split_commas (s : list Z) (cur : list Z) : list (list Z) :=
+  match s with
+  | [] => [rev cur]
+  | x :: r => if x =? 44 then rev cur :: split_commas r [] else split_commas r (x :: cur)
+  end.
+
+Fixpoint all_some {A} (l : list (option A)) : option (list A) :=
+  match l with
+  | [] => Some []
+  | None :: _ => None
+  | Some x :: r => match all_some r with Some xs => Some (x :: xs) | None => None end
+  end.
+
+(** [ParseArchiveInfoList]: the list with offsets filled in, validated *)
+Definition parse_archive_info_list (s : list Z) : option (list ainfo) :=
+  match s with
+  | [] => None
+  | _ => match all_some (map parse_archive_info (split_commas s [])) with
+         | None => None
+         | Some l => let l' := fill_offset (map (fun sn => mkAinfo 0 (fst sn) (snd sn)) l) in
+                     if validate l' then Some l' else None
+         end
+  end.
+
+(** [ArchiveInfo.String], [ArchiveInfoList.String] *)
+Definition archive_info_string (step n : Z) : list Z :=
+  duration_string step ++ [58] ++ duration_string (retention step n).
+Fixpoint archive_list_string (l : list (Z * Z)) : list Z :=
+  match l with
+  | [] => []
+  | [(s, n)] => archive_info_string s n
+  | (s, n) :: r => archive_info_string s n ++ [44] ++ archive_list_string r
+  end.
+
+(** ** Aggregation method names (aggregationmethod_enumer.go, cmd/flags.go) *)
+Definition method_names : list (Z * list Z) :=
+  [(1, [97;118;101;114;97;103;101]); (2, [115;117;109]); (3, [108;97;115;116]); (4, [109;97;120]);
+   (5, [109;105;110]); (6, [102;105;114;115;116]); (7, [109;105;120]);
+   (8, [112;101;114;99;101;110;116;105;108;101])].
+Fixpoint list_eqb (a b : list Z) : bool :=
+  match a, b with
+  | [], [] => true
+  | x :: r, y :: q => (x =? y) && list_eqb r q
+  | _, _ => false
+  end.
+(** [AggregationMethodString] *)
+Definition method_of_string (s : list Z) : option Z :=
+  match filter (fun e => list_eqb (snd e) s) method_names with
+  | e :: _ => Some (fst e)
+  | [] => None
+  end.
+(** [AggregationMethod.String] *)
+Definition method_string (m : Z) : list Z :=
+  match filter (fun e => fst e =? m) method_names with
+  | e :: _ => snd e
+  | [] => [65;103;103;114;101;103;97;116;105;111;110;77;101;116;104;111;100;40] ++ print_int m ++ [41]
+  end.
+(** [aggregationMethodValue.Set] of the CLI: only the six storable methods *)
+Definition flag_method (s : list Z) : option Z :=
+  match method_of_string s with
+  | Some m => if (1 <=? m) && (m <=? 6) then Some m else None
+  | None => None
   end.
